@@ -2,6 +2,10 @@ import IkeModel
 import IkeModel.GenAbs
 import IkeModel.GenAbsEap
 import IkeModel.Generated.Gen_lib
+import IkeModel.Generated.Gen_encr
+import IkeModel.Generated.Gen_integ
+import IkeModel.Generated.Gen_prf
+import IkeModel.Generated.Gen_esn
 
 /-! Driver for the GENERATED model (`IkeModel/Generated/Gen_message.lean`, written by
 `tools/go2lean` from /repo's current source): the same line protocol as `Driver.lean`, the same
@@ -163,6 +167,52 @@ def gPrfPlusOp (ts : Array String) : String :=
     | none => "bad-args"
   | _, _, _, _ => "bad-args"
 
+/-! ### registries (packages encr, integ, prf, esn): the package-level maps are what `init` builds -/
+
+def gOkAlg (id : UInt16) (k o : Int) : String := s!"ok {id.toNat} {k} {o}"
+
+def gResOr {α : Type} (r : Res α) (f : α → String) : String :=
+  match r with | .ok a => f a | .err => "none" | .fault => "panic"
+
+/-- `dectr <kind> <ttype> <id> <present> <fmt> <atype> <aval> x<vval>` through the generated `init` + `DecodeTransform` -/
+def gDectrOp (ts : Array String) : String :=
+  let nat (i : Nat) : Option Nat := (ts[i]?).bind String.toNat?
+  match ts[1]?, nat 2, nat 3, nat 4, nat 5, nat 6, nat 7, (ts[8]?).bind parseX with
+  | some kind, some tt, some tid, some pr, some fm, some aty, some av, some vv =>
+    let t : Ike.Transform := ⟨UInt8.ofNat tt, UInt16.ofNat tid, pr != 0, UInt8.ofNat fm, UInt16.ofNat aty, UInt16.ofNat av, vv⟩
+    if kind == "encr" then
+      gResOr (Gen.encr.init_ {} >>= fun G => Gen.encr.DecodeTransform G t >>= fun a =>
+        match a with
+        | .nil_ => Res.err
+        | _ => Gen.encr.ENCRType.TransformID a >>= fun i => Gen.encr.ENCRType.GetKeyLength a >>= fun k => Res.ok (gOkAlg i k 0)) id
+    else if kind == "encrk" then
+      gResOr (Gen.encr.init_ {} >>= fun G => Gen.encr.DecodeTransformChildSA G t >>= fun a =>
+        match a with
+        | .nil_ => Res.err
+        | _ => Gen.encr.ENCRKType.TransformID a >>= fun i => Gen.encr.ENCRKType.GetKeyLength a >>= fun k => Res.ok (gOkAlg i k 0)) id
+    else if kind == "integ" then
+      gResOr (Gen.integ.init_ {} >>= fun G => Gen.integ.DecodeTransform G t >>= fun a =>
+        match a with
+        | .nil_ => Res.err
+        | _ => Gen.integ.INTEGType.TransformID a >>= fun i => Gen.integ.INTEGType.GetKeyLength a >>= fun k =>
+                 Gen.integ.INTEGType.GetOutputLength a >>= fun o => Res.ok (gOkAlg i k o)) id
+    else if kind == "integk" then
+      gResOr (Gen.integ.init_ {} >>= fun G => Gen.integ.DecodeTransformChildSA G t >>= fun a =>
+        match a with
+        | .nil_ => Res.err
+        | _ => Gen.integ.INTEGKType.TransformID a >>= fun i => Gen.integ.INTEGKType.GetKeyLength a >>= fun k => Res.ok (gOkAlg i k 0)) id
+    else if kind == "prf" then
+      gResOr (Gen.prf.init_ {} >>= fun G => Gen.prf.DecodeTransform G t >>= fun a =>
+        match a with
+        | .nil_ => Res.err
+        | _ => Gen.prf.PRFType.TransformID a >>= fun i => Gen.prf.PRFType.GetKeyLength a >>= fun k =>
+                 Gen.prf.PRFType.GetOutputLength a >>= fun o => Res.ok (gOkAlg i k o)) id
+    else if kind == "esn" then
+      gResOr (Gen.esn.init_ {} >>= fun G => Gen.esn.DecodeTransform G t >>= fun a =>
+        Gen.esn.ESN.TransformID a >>= fun i => Gen.esn.ESN.GetNeedESN a >>= fun n => Res.ok (gOkAlg i (if n then 1 else 0) 0)) id
+    else "unsupported"
+  | _, _, _, _, _, _, _, _ => "bad-args"
+
 def gDecEapOp (name : String) (b : Bytes) : Option String :=
   if name == "eap" then some (gresStr (fun e => (sxEap e).toStr) ((Gen.eap.EAP.Unmarshal {} b).map GenAbs.absEap))
   else if name == "eapm-ID" then
@@ -220,6 +270,7 @@ def gHandle (line : String) : String :=
     else if op == "akamac-built" then gAkamacBuiltOp ts false
     else if op == "akaprf" then gAkaPrfOp ts
     else if op == "prfplus" then gPrfPlusOp ts
+    else if op == "dectr" then gDectrOp ts
     else if op == "reenc" then
       if h3 : ts.size = 3 then
         match parseX ts[2] with
